@@ -196,6 +196,28 @@ def generate():
             "    fn connect(&mut self, addrs: &[SocketAddr]) -> Result<(), Error> {\n        if !addrs.is_empty() {\n            self.dialled.push(addrs[0]);\n        }\n        Ok(())\n    }\n"
             + ctp + "\n}\n")
     write_if_changed(os.path.join(K.GEN, "extracted.rs"), out)
+    # 2b. the cipher-list part of a handshake message: writer arm of InitMsg::write_to and reader arm of InitMsg::read_from,
+    #     wrapped as associated functions of InitMsg (included into crypto::init::verif, so Self:: and private items resolve)
+    init = rd("src/crypto/init.rs")
+    wpos = init.find("fn write_to(&self, buffer: &mut [u8]")
+    warm = extract_item(init[wpos:], r"Self::Ping \{ algorithms, \.\. \} \| Self::Pong \{ algorithms, \.\. \} => \{") if wpos >= 0 else None
+    rarm = extract_item(init, r"Self::PART_ALGORITHMS => \{")
+    if not re.search(r"fn write_to\(&self, buffer: &mut \[u8\], key: &Ed25519KeyPair\) -> Result<usize, io::Error> \{\s*let mut w = Cursor::new\(buffer\);", init):
+        problems.append("InitMsg::write_to no longer writes through `let mut w = Cursor::new(buffer)`")
+    if not re.search(r"fn read_from\(buffer: &\[u8\], trusted_keys: &\[Ed25519PublicKey\]\) -> Result<\(Self, Ed25519PublicKey\), Error> \{\s*let mut r = Cursor::new\(buffer\);", init):
+        problems.append("InitMsg::read_from no longer reads through `let mut r = Cursor::new(buffer)`")
+    if not re.search(r"let field_len = r\.read_u16::<NetworkEndian>\(\)[^;]*as usize;", init) or not re.search(r"let mut algorithms = None;", init):
+        problems.append("InitMsg::read_from: field_len / algorithms bindings not found")
+    warm = need(warm, "cipher-list writer arm in InitMsg::write_to", "{ let _ = algorithms; }")
+    rarm = need(rarm, "cipher-list reader arm in InitMsg::read_from", "{ let _ = field_len; }")
+    warm = warm[warm.index("=> {") + 3:] if "=> {" in warm else warm
+    rarm = rarm[rarm.index("=> {") + 3:] if "=> {" in rarm else rarm
+    xi = ("// GENERATED from %s/src/crypto/init.rs on every run - do not edit\n" % repo +
+          "impl InitMsg {\n    pub fn x_write_algorithms_part(algorithms: &Algorithms, buffer: &mut [u8]) -> Result<usize, io::Error> {\n"
+          "        let mut w = Cursor::new(buffer);\n        " + warm + "\n        Ok(w.position() as usize)\n    }\n"
+          "    #[allow(unused_assignments, unused_mut)]\n    pub fn x_read_algorithms_part(buffer: &[u8], field_len: usize) -> Result<Option<Algorithms>, Error> {\n"
+          "        let mut r = Cursor::new(buffer);\n        let mut algorithms = None;\n        " + rarm + "\n        Ok(algorithms)\n    }\n}\n")
+    write_if_changed(os.path.join(K.GEN, "extracted_init.rs"), xi)
     # 3. playback dispatch
     hs = all_harnesses()
     d = "// GENERATED - playback dispatch\npub fn dispatch(name: &str) -> bool {\n    match name {\n"
